@@ -49,7 +49,10 @@ FixIo(row) ==
     [] row.f = "np.intersect1d" /\ row.t = "idx" /\ "intersect1d" \in Fixes -> Impl("eq", <<D1, Bare, Bare>>)
     [] row.f = "nd.trace" /\ "methods" \in Fixes -> Impl("none", <<D1>>)
     [] OTHER -> row.io
-Active == {[r EXCEPT !.io = FixIo(r)] : r \in {r \in Rows : r.f \in CatNames}} \cup GenericRows(CatNames \ (RowNames \cup NotDemanded))
+AllQ == <<TRUE, TRUE, TRUE>>
+Active == {[r EXCEPT !.io = FixIo(r)] @@ [q |-> AllQ] : r \in {r \in Rows : r.f \in CatNames}}
+          \cup {r @@ [q |-> AllQ] : r \in GenericRows(CatNames \ (RowNames \cup NotDemanded))}
+          \cup {r \in OptAllRows : r.f \in CatNames}
 
 VARIABLE c
 vars == <<c>>
@@ -57,7 +60,9 @@ Init == c = <<>>
 
 DimsIn(da) == {da[i] : i \in DOMAIN da}
 \* "o<i>" is a different case from "all" only when another operand shares operand i's dimension
-PatOK(da, p) == IF p = "all" THEN TRUE ELSE (PatIdx(p) <= Len(da) /\ \E j \in DOMAIN da : j # PatIdx(p) /\ da[j] = da[PatIdx(p)])
+\* only operands that are quantities in this call form (q) can be re-expressed
+PatOK(da, p, q, rd) == IF p = "all" THEN \E i \in DOMAIN da : q[i] /\ da[i] = rd
+                       ELSE (PatIdx(p) <= Len(da) /\ q[PatIdx(p)] /\ \E j \in DOMAIN da : j # PatIdx(p) /\ q[j] /\ da[j] = da[PatIdx(p)])
 PrimaryDeg(sig) == IF sig.k = "unknown" \/ sig.o[1].bare THEN <<2, 0, 0>> ELSE sig.o[1].deg
 
 \* outputs on which the transcribed formula contradicts the property-side signature
@@ -97,7 +102,7 @@ RegDCase(row, sh, da, rg) ==
   CaseU(row, sh, da, [i \in DOMAIN da |-> <<da[i], rg[i]>>], [i \in DOMAIN da |-> <<da[i], 0>>],
         [i \in DOMAIN da |-> rg[i]], "reg", "L", 0, "f8", TRUE, 1)
 \* merging and comparing functions: several operands of one dimension whose units must be reconciled
-RegRow(row) == row.n >= 2 /\ row.cls \in {"same", "bare"}
+RegRow(row) == row.n >= 2 /\ row.cls \in {"same", "bare"} /\ row.q = AllQ
 PlainDa(da) == \A i \in DOMAIN da : da[i] \in {"L", "T"}
 
 Case(row, sh, da, p, rd, r, dt, real, kl, kt, ds) ==
@@ -120,7 +125,7 @@ Next ==
   /\ c = <<>>
   /\ \E row \in Active : \E sh \in row.shs, da \in DasOf(row) : \E p \in Patterns(da), rd \in {"L", "T", "iL", "iT"} :
        /\ Len(da) = row.n
-       /\ PatOK(da, p)
+       /\ PatOK(da, p, row.q, rd)
        /\ IF p = "all" THEN rd \in DimsIn(da) ELSE rd = da[PatIdx(p)]
        /\ \/ /\ "dy" \in Fams
              /\ \E r \in Factors, b \in Bases, ds \in DataSets : c' = Case(row, sh, da, p, rd, r, "f8", FALSE, b[1], b[2], ds)
